@@ -43,7 +43,8 @@ def write_rows(path, n, dialect=None):
 def cases(draw, nmax):
     import math
 
-    n = draw(st.one_of(st.sampled_from([0, 1, 100, 300]), st.floats(0, math.log(nmax)).map(lambda x: int(math.exp(x)))))
+    # (12 000 rows are a file of more than 1 MiB: size thresholds of lazily initialised structures)
+    n = draw(st.one_of(st.sampled_from([0, 1, 100, 300, 0, 1, 100, 300, 0, 1, 100, 300, 12000]), st.floats(0, math.log(nmax)).map(lambda x: int(math.exp(x)))))
     steps = []
     for _ in range(draw(st.integers(3, 10))):
         k = draw(st.sampled_from(["insert", "insert", "insert", "insert_multiple", "insert_multiple", "early_get", "early_get", "early_contains", "early_contains", "count", "count", "len", "len", "reindex", "reindex", "insert_ooo", "insert_ooo", "reopen", "reopen", "insert_bulk"]))
@@ -66,6 +67,9 @@ def cases(draw, nmax):
             steps.append([k, draw(gen.points()), draw(st.sampled_from([1000, 1000, 1024, 1100])), draw(st.booleans())])
         else:
             steps.append([k])
+    if n >= 10000 or draw(st.integers(0, 5)) == 0:
+        steps.insert(0, ["reopen"])  # the first insert after (re)opening comes before any read
+        steps.insert(1, ["insert", draw(gen.points()), draw(st.booleans())])
     return {"n": n, "auto_index": draw(st.booleans()), "steps": steps, "flush": draw(st.sampled_from([True, True, False])), "dialect": draw(st.sampled_from([None, None, None, "unix"]))}
 
 
